@@ -419,6 +419,13 @@ class Eval:
             return self.t_ext(("ext", "numpy.where", args, ()))
         if d in ("set", "list", "tuple", "frozenset", "numpy.array", "numpy.asarray", "sorted", "iter") and len(args) == 1:
             x = self.ev(args[0])
+            dt_ = dict(kwargs).get("dtype")
+            if dt_ is not None and isinstance(x, (M, V)) and d in ("numpy.array", "numpy.asarray"):
+                nm_ = str(dt_[1]).split(".")[-1].rstrip("_") if isinstance(dt_, tuple) and len(dt_) == 2 else ""
+                if nm_ == "bool":
+                    return lift(lambda e: b2e(nzb(e)), x)
+                if nm_ not in ("float", "float64", "double"):
+                    raise Inconclusive("PW: conversion to dtype %s" % nm_)
             if isinstance(x, (I, PS, MAP, LISTOF, M, V)):
                 return x
         if d == "dict" and len(args) == 1:
@@ -827,6 +834,13 @@ def rule_counts(prog, rep, rule="PW.count"):
         q = "sempler.utils." + name
         f, S, term = term_of(prog, q)
         try:
+            # `set(v) == {c}` says "v is non-empty and all its entries are c": for the empty node set it is False, although the empty
+            # set is vacuously a clique / complete
+            if term[0] == "cmp" and term[1] == "==" and any(x[0] == "ext" and x[1] in ("set", "frozenset") for x in (term[2], term[3])) and \
+                    any(x[0] == "set" and len(x[1]) == 1 for x in (term[2], term[3])):
+                rep.bad(rule, where_of(f), "%s compares the *set* of per-node values with a one-element set: for an empty node set that is set() == {c}, False, "
+                        "although the empty set is vacuously a clique (the count form gives 0 == 0)" % name)
+                continue
             if term[0] != "cmp" or term[1] != "==":
                 raise Inconclusive("result is not an equality of a count with a closed form")
             sides = [term[2], term[3]]
